@@ -77,6 +77,45 @@ def make_db(known, mand, canonical=None):
     return ImportDB(src)
 
 
+BLACK_CFGS = [None, None, "[tool.black]\nline-length = 50\n", '[tool.black]\ntarget-version = ["py311"]\n',
+              '[tool.black]\ntarget-version = "py311"\n', "[tool.black]\nskip-magic-trailing-comma = true\n",
+              "[tool.black]\nskip-string-normalization = true\nline-length = 100\n", "[tool.other]\nx = 1\n",
+              '[tool.black]\ntarget-version = ["py310", "py312"]\nline-length = 30\n']
+
+
+class black_env:
+    """`use_black=True` reads ./pyproject.toml of the process's working directory: run the tool in a scratch directory
+    that holds the case's pyproject.toml (or none)."""
+    def __init__(self, case):
+        self.on = bool((case.get("params") or {}).get("use_black"))
+        self.cfg = case.get("black_cfg")
+
+    def __enter__(self):
+        if self.on:
+            import tempfile
+            self.old = os.getcwd()
+            self.d = tempfile.mkdtemp(prefix="pfbblack.")
+            # a .git marker stops black's search for the project root at this directory
+            os.mkdir(os.path.join(self.d, ".git"))
+            if self.cfg is not None:
+                with open(os.path.join(self.d, "pyproject.toml"), "w") as f:
+                    f.write(self.cfg)
+            os.chdir(self.d)
+            try:
+                from black.files import find_project_root
+                find_project_root.cache_clear()
+            except Exception:
+                pass
+        return self
+
+    def __exit__(self, *a):
+        if self.on:
+            import shutil
+            os.chdir(self.old)
+            shutil.rmtree(self.d, ignore_errors=True)
+        return False
+
+
 def make_params(p):
     from pyflyby._importstmt import ImportFormatParams
     q = dict(p)
@@ -106,6 +145,10 @@ def gen_rewriter_case(rng, tool=None, **kw):
     flags = dict(add_missing=rng.random() < 0.85, remove_unused=rng.random() < 0.85, add_mandatory=rng.random() < 0.8)
     tool = tool or rng.choice(TOOLS[:2] + TOOLS[:2] + TOOLS)
     case = dict(text=text, tool=tool, params=gen_params(rng), known=known, mandatory=mand, flags=flags)
+    if rng.random() < 0.05:
+        # the black-formatted style (its configuration comes from ./pyproject.toml): a formatting configuration too
+        case["params"]["use_black"] = True
+        case["black_cfg"] = rng.choice(BLACK_CFGS)
     if tool in ("transform0", "canonicalize0") and rng.random() < 0.7:
         # a rename map that does not apply: no import and no whole-word occurrence of OLD anywhere, but look-alike
         # text (OLD with its dots replaced, OLD as part of a longer word, in strings and comments)
@@ -137,6 +180,11 @@ def gen_rewriter_case(rng, tool=None, **kw):
 
 def run_tool(case, text=None):
     """Return output text (str).  Raises whatever the tool raises."""
+    with black_env(case):
+        return _run_tool(case, text)
+
+
+def _run_tool(case, text=None):
     from pyflyby._parse import PythonBlock
     from pyflyby._file import FileText
     from pyflyby import _imports2s as I
@@ -423,6 +471,11 @@ def _blocks_json(transformer):
 
 
 def block_trace(case):
+    with black_env(case):
+        return _block_trace(case)
+
+
+def _block_trace(case):
     """
     Run reformat / tidy on the real code and record what the Lean Blocks model needs and predicts:
     the statements the transformer was built from, the scan result, the database, and the final block list.
@@ -576,8 +629,8 @@ def params_json(p):
 
 def text_requests(case, tr):
     """requests for Driver/Compose.lean: the model's complete output text"""
-    if "stmts" not in tr or case["tool"] not in ("reformat", "tidy"):
-        return []
+    if "stmts" not in tr or case["tool"] not in ("reformat", "tidy") or (case.get("params") or {}).get("use_black"):
+        return []      # (black's own formatting is not modelled: block structure only)
     pj = params_json(case.get("params", {}))
     if case["tool"] == "reformat":
         return [dict(op="reformat_text", stmts=tr["stmts"], params=pj)]
@@ -610,7 +663,7 @@ def text_compare(case, tr, resps):
 # --------------------------------------------------------------------------- reparse (premise of C03_reformat_idem_*)
 
 def reparse_requests(case, tr):
-    if case["tool"] != "reformat" or "stmts" not in tr or "out_stmts" not in tr:
+    if case["tool"] != "reformat" or "stmts" not in tr or "out_stmts" not in tr or (case.get("params") or {}).get("use_black"):
         return []
     return [dict(op="reparse_text", stmts=tr["stmts"], params=params_json(case.get("params", {})))]
 
